@@ -88,9 +88,24 @@ def grep_gate():
     return bad
 
 
+def gen_coqproject():
+    """_CoqProject is generated: every .v file under coq/theories and coq/gen."""
+    files = sorted(glob.glob(os.path.join(COQ, "theories", "**", "*.v"), recursive=True) +
+                   glob.glob(os.path.join(COQ, "gen", "*.v")))
+    txt = "-Q theories Reservoir\n-Q gen ReservoirGen\n-arg -w -arg none\n" + "".join(
+        os.path.relpath(f, COQ) + "\n" for f in files)
+    proj = os.path.join(COQ, "_CoqProject")
+    old = open(proj).read() if os.path.exists(proj) else ""
+    if old != txt:
+        with open(proj, "w") as f:
+            f.write(txt)
+
+
 def coq_make(clean=False):
     """Full .vo build of the development (incremental unless clean)."""
     with CoqLock():
+        os.makedirs(os.path.join(COQ, "gen"), exist_ok=True)
+        gen_coqproject()
         mk = os.path.join(COQ, "Makefile")
         proj = os.path.join(COQ, "_CoqProject")
         if clean and os.path.exists(mk):
@@ -112,7 +127,7 @@ def coq_property_file(pid):
     theorems = re.findall(r"^\s*Theorem\s+(\w+)", src, flags=re.M)
     printed = re.findall(r"^\s*Print Assumptions\s+(\w+)\s*\.", src, flags=re.M)
     with CoqLock():
-        rc, out = sh(["coqc", "-Q", "theories", "Reservoir", "-w", "none",
+        rc, out = sh(["coqc", "-Q", "theories", "Reservoir", "-Q", "gen", "ReservoirGen", "-w", "none",
                       os.path.join("theories", "Properties", pid + ".v")], cwd=COQ, timeout=1200)
     if rc != 0:
         return False, {}, out
@@ -191,7 +206,8 @@ def _parse_list_z(txt):
 
 def _eval_one(path):
     t0 = time.time()
-    rc, out = sh(["coqc", "-Q", THEORIES, "Reservoir", "-w", "none", path], cwd=os.path.dirname(path), timeout=3000)
+    rc, out = sh(["coqc", "-Q", THEORIES, "Reservoir", "-Q", os.path.join(COQ, "gen"), "ReservoirGen", "-w", "none", path],
+                 cwd=os.path.dirname(path), timeout=3000)
     dt = time.time() - t0
     if rc != 0:
         return {"file": path, "error": out[-3000:], "secs": dt}
@@ -352,6 +368,11 @@ def failing_cases(sr, kind):
     out = []
     base = 0
     readable = sr["meta"].get("readable", [])
+    # "direct" observations: decided by the harness itself (watchdog expiry, race report,
+    # process death ...), not by evaluating a model; listed with their readable form.
+    direct = sr["meta"].get("direct") or {}
+    for i, rd in enumerate(direct.get("failures" if kind == "propfail" else "mismatches", [])):
+        out.append((10 ** 9 + i, rd))
     for r in sr["results"]:
         if "error" in r:
             continue
@@ -410,7 +431,7 @@ def process_stage(ctx, stage):
     errs = [r for r in results if "error" in r]
     info["files"] = len(results)
     info["coq_secs"] = round(sum(r.get("secs", 0) for r in results), 1)
-    total = sum(r.get("total", 0) for r in results)
+    total = sum(r.get("total", 0) for r in results) + int((meta.get("direct") or {}).get("total", 0))
     ctx.evaluations += total
     ctx.distinct_nontrivial += int(meta.get("distinct_nontrivial", 0))
     if meta.get("rule"):
